@@ -1,5 +1,7 @@
 import DimodProofs.LpReader
 import Mathlib.Tactic.IntervalCases
+import Mathlib.Tactic.Ring
+import Mathlib.Tactic.FieldSimp
 
 /-! C12: the character-level tokenizer of the C++ reader model (`LpCpp.lexLine` = `Reader::readnexttoken`) on what the
 writer prints, for every label and every natural number (the lexical step of the general round trip through the reader
@@ -274,5 +276,183 @@ theorem lexLine_natDigits (n : Nat) (rest : List Char) (hr : Stops rest) (fuel :
   simp only [g1, g2, g3, g4, g5, g6, g7, hst, or_self, if_false, List.length_cons]
   have hd : (c :: (t ++ rest)).drop (t.length + 1) = rest := by simp
   rw [hd]
+
+
+/-! ### positional decimals `ddd.ddd` -/
+
+theorem digitsVal_acc (b : List Char) : ∀ acc : Nat,
+    b.foldl (fun n c => 10 * n + (c.toNat - 48)) acc = acc * 10 ^ b.length + digitsVal b := by
+  induction b with
+  | nil => intro acc; simp [digitsVal]
+  | cons x t ih =>
+    intro acc
+    simp only [List.foldl_cons, List.length_cons, digitsVal]
+    rw [ih, ih (10 * 0 + (x.toNat - 48))]
+    ring
+
+theorem digitsVal_append (a b : List Char) : digitsVal (a ++ b) = digitsVal a * 10 ^ b.length + digitsVal b := by
+  unfold digitsVal
+  rw [List.foldl_append, digitsVal_acc]
+  rfl
+
+theorem value_pick (mant L nd : Nat) (hnd : L < nd) :
+    (if mant = 0 then Num.fin 0
+      else if (0 : Int) - (L : Int) > 400 then Num.inf false
+      else if (0 : Int) - (L : Int) + (nd : Int) < -400 then Num.fin 0
+      else if (0 : Int) - (L : Int) ≥ 0 then roundDouble ((mant : Rat) * ((10 ^ ((0 : Int) - (L : Int)).toNat : Nat) : Rat))
+      else roundDouble ((mant : Rat) / ((10 ^ (-((0 : Int) - (L : Int))).toNat : Nat) : Rat))) =
+    roundDouble ((mant : Rat) / (10 : Rat) ^ L) := by
+  by_cases h0 : mant = 0
+  · subst h0; simp [roundDouble]
+  · have h1 : ¬ ((0 : Int) - (L : Int) > 400) := by omega
+    have h2 : ¬ ((0 : Int) - (L : Int) + (nd : Int) < -400) := by omega
+    simp only [h0, h1, h2, if_false]
+    by_cases hL : L = 0
+    · subst hL; simp
+    · have h3 : ¬ ((0 : Int) - (L : Int) ≥ 0) := by omega
+      have h4 : (-((0 : Int) - (L : Int))).toNat = L := by omega
+      simp only [h3, if_false, h4]
+      push_cast
+      rfl
+
+/-- **`strtod` on `ddd.ddd`** (the integer part printed by `natDigits`, any digits after the point): everything is
+    consumed, the value is the binary64 nearest to the decimal number -/
+theorem strtod_decimal (ip : Nat) (fd : List Char) (hfd : fd.all Char.isDigit = true) (rest : List Char) (hr : Stops rest) :
+    strtod (natDigits ip ++ '.' :: (fd ++ rest)) =
+      .ok (some (roundDouble ((ip : Rat) + (digitsVal fd : Rat) / (10 : Rat) ^ fd.length), (natDigits ip).length + 1 + fd.length)) := by
+  obtain ⟨hne, hall, _⟩ := natDigits_spec ip
+  have hdig : ∀ x ∈ natDigits ip, Char.isDigit x = true := fun x hx => List.all_eq_true.mp hall x hx
+  have hfdig : ∀ x ∈ fd, Char.isDigit x = true := fun x hx => List.all_eq_true.mp hfd x hx
+  obtain ⟨c, t, hct⟩ : ∃ c t, natDigits ip = c :: t := by
+    cases hd : natDigits ip with
+    | nil => exact absurd hd hne
+    | cons c t => exact ⟨c, t, rfl⟩
+  obtain ⟨k, hk⟩ := natDigits_mem ip c (by rw [hct]; exact List.mem_cons_self)
+  obtain ⟨f1, f2, f3, _, f5⟩ := digitChar_facts k
+  rw [← hk] at f1 f2 f3 f5
+  -- no `0x`: the second character is a digit or the point
+  have h0x : startsCI (natDigits ip ++ '.' :: (fd ++ rest)) "0x" = false := by
+    cases hc : startsCI (natDigits ip ++ '.' :: (fd ++ rest)) "0x" with
+    | false => rfl
+    | true =>
+      have hx : ∀ x ∈ "0x".toList, ∀ d ∈ identTerminators, d.toLower ≠ x := by
+        intro x hx d hd
+        have := terminator_not_numeric d hd
+        have h0 : "0x".toList = ['0', 'x'] := by decide
+        rw [h0] at hx
+        simp only [List.mem_cons, List.not_mem_nil, or_false] at hx
+        rcases hx with rfl | rfl
+        · exact this.2.2.2.2.1
+        · exact this.2.2.2.2.2
+      have hp := startsCI_prefix _ _ hc
+      have h0 : "0x".toList = ['0', 'x'] := by decide
+      rw [h0, hct] at hp
+      obtain ⟨e, he⟩ := hp
+      cases t with
+      | nil =>
+        simp only [List.cons_append, List.nil_append, List.map_cons, List.cons.injEq] at he
+        exact absurd he.2.1 (by decide)
+      | cons y t' =>
+        simp only [List.cons_append, List.map_cons, List.cons.injEq] at he
+        obtain ⟨j, hj⟩ := natDigits_mem ip y (by rw [hct]; simp)
+        exact absurd he.2.1.symm (hj ▸ (digitChar_facts j).2.2.2.1)
+  have htw : (natDigits ip ++ '.' :: (fd ++ rest)).takeWhile Char.isDigit = natDigits ip :=
+    takeWhile_append_stop _ _ _ _ hdig (by decide)
+  have hdrop : List.drop (t.length + 1) (c :: (t ++ '.' :: (fd ++ rest))) = '.' :: (fd ++ rest) := by simp
+  have htw2 : (fd ++ rest).takeWhile Char.isDigit = fd := by
+    rcases hr with rfl | ⟨d, r, rfl, hd⟩
+    · rw [List.append_nil]; exact takeWhile_all _ _ hfdig
+    · exact takeWhile_append_stop _ _ _ _ hfdig (terminator_not_numeric d (List.contains_iff_mem.mp hd)).1
+  have hdrop2 : List.drop (t.length + 1 + (1 + fd.length)) (c :: (t ++ '.' :: (fd ++ rest))) = rest := by
+    have : c :: (t ++ '.' :: (fd ++ rest)) = (c :: t ++ '.' :: fd) ++ rest := by simp
+    rw [this]
+    have hl : t.length + 1 + (1 + fd.length) = (c :: t ++ '.' :: fd).length := by simp; omega
+    rw [hl, List.drop_left]
+  have hinf := startsCI_head_false c (t ++ '.' :: (fd ++ rest)) "infinity" 'i' "nfinity".toList (by decide) f2
+  have hin := startsCI_head_false c (t ++ '.' :: (fd ++ rest)) "inf" 'i' "nf".toList (by decide) f2
+  have hnan := startsCI_head_false c (t ++ '.' :: (fd ++ rest)) "nan" 'n' "an".toList (by decide) f3
+  have hval : digitsVal (natDigits ip) = ip := digitsVal_natDigits ip
+  have hr0 : roundDouble 0 = .fin 0 := by simp [roundDouble]
+  have hmant : ((digitsVal (c :: t ++ fd) : Nat) : Rat) / (10 : Rat) ^ fd.length =
+      (ip : Rat) + (digitsVal fd : Rat) / (10 : Rat) ^ fd.length := by
+    rw [← hct, digitsVal_append, hval]
+    have : ((10 : Rat) ^ fd.length) ≠ 0 := by positivity
+    push_cast
+    field_simp
+  rw [hct] at h0x htw
+  rw [hct]
+  simp only [List.cons_append] at h0x htw hmant ⊢
+  unfold strtod
+  simp only [f1, hinf, hin, hnan, h0x, htw, if_false, Bool.false_and, Bool.false_eq_true, hdrop, List.isEmpty_cons,
+    false_and, List.length_cons, List.head?_cons, if_true, List.drop_succ_cons, List.drop_zero, htw2, hdrop2]
+  have hlen : fd.length < (c :: t ++ fd).length := by simp; omega
+  have hfin : ∀ (e : Int × Nat), e = ((0 : Int), 0) →
+      (Except.ok (some
+        (if digitsVal (c :: t ++ fd) = 0 then Num.fin 0
+          else if e.1 - (fd.length : Int) > 400 then Num.inf false
+          else if e.1 - (fd.length : Int) + ((c :: t ++ fd).length : Int) < -400 then Num.fin 0
+          else if e.1 - (fd.length : Int) ≥ 0 then
+            roundDouble ((digitsVal (c :: t ++ fd) : Rat) * ((10 ^ (e.1 - (fd.length : Int)).toNat : Nat) : Rat))
+          else roundDouble ((digitsVal (c :: t ++ fd) : Rat) / ((10 ^ (-(e.1 - (fd.length : Int))).toNat : Nat) : Rat)),
+          t.length + 1 + (1 + fd.length) + e.2)) : Except Err (Option (Num × Nat))) =
+      Except.ok (some (roundDouble ((ip : Rat) + (digitsVal fd : Rat) / (10 : Rat) ^ fd.length), t.length + 1 + 1 + fd.length)) := by
+    intro e he
+    subst he
+    have hm' : ((digitsVal (c :: t ++ fd) : Nat) : Rat) / (10 : Rat) ^ fd.length =
+        (ip : Rat) + (digitsVal fd : Rat) / (10 : Rat) ^ fd.length := hmant
+    rw [value_pick _ _ _ hlen, hm']
+    have : t.length + 1 + (1 + fd.length) + ((0 : Int), 0).2 = t.length + 1 + 1 + fd.length := by simp; omega
+    rw [this]
+  rcases hr with rfl | ⟨d, r, rfl, hd⟩
+  · exact hfin _ rfl
+  · have := terminator_not_numeric d (List.contains_iff_mem.mp hd)
+    simp only [this.2.2.1, this.2.2.2.1, or_self, if_false]
+    exact hfin _ rfl
+
+
+theorem digitsVal_of_parseDigits (fd : List Char) (fp : Nat) (h : parseDigits fd = some fp) : digitsVal fd = fp := by
+  unfold parseDigits at h
+  split at h
+  · cases h
+  · exact Option.some.inj h
+
+/-- a number text starting with a digit of `natDigits`, converted by `strtod` as a whole, is one constant token -/
+theorem lexLine_of_strtod (ip : Nat) (tail rest : List Char) (v : Num)
+    (hst : strtod (natDigits ip ++ (tail ++ rest)) = .ok (some (v, (natDigits ip).length + tail.length))) (fuel : Nat) :
+    lexLine (fuel + 1) (natDigits ip ++ (tail ++ rest)) = (lexLine fuel rest).map (Raw.cons v :: ·) := by
+  obtain ⟨hne, _, _⟩ := natDigits_spec ip
+  obtain ⟨c, t, hct⟩ : ∃ c t, natDigits ip = c :: t := by
+    cases hd : natDigits ip with
+    | nil => exact absurd hd hne
+    | cons c t => exact ⟨c, t, rfl⟩
+  obtain ⟨k, hk⟩ := natDigits_mem ip c (by rw [hct]; exact List.mem_cons_self)
+  obtain ⟨g1, g2, g3, g4, g5, g6, g7⟩ := digitChar_lex_facts k
+  rw [← hk] at g1 g2 g3 g4 g5 g6 g7
+  rw [hct] at hst ⊢
+  simp only [List.cons_append] at hst ⊢
+  rw [lexLine]
+  simp only [g1, g2, g3, g4, g5, g6, g7, hst, or_self, if_false, List.length_cons]
+  have hd : (c :: (t ++ (tail ++ rest))).drop (t.length + 1 + tail.length) = rest := by
+    have : c :: (t ++ (tail ++ rest)) = (c :: t ++ tail) ++ rest := by simp
+    rw [this]
+    have hl : t.length + 1 + tail.length = (c :: t ++ tail).length := by simp; omega
+    rw [hl, List.drop_left]
+  rw [hd]
+
+/-- **the positional decimal text of a non-negative terminating decimal is one constant token**: its value is the
+    binary64 nearest to the number -/
+theorem lexLine_showPosDecimal (q : Rat) (h0 : 0 ≤ q) (hd : Dec60 q) (rest : List Char) (hr : Stops rest) (fuel : Nat) :
+    lexLine (fuel + 1) ((showPosDecimal q).toList ++ rest) = (lexLine fuel rest).map (Raw.cons (roundDouble q) :: ·) := by
+  obtain ⟨ip, fp, fd, hw, hfd, hfp, hval⟩ := showPosDecimal_form q h0 hd
+  have hst := strtod_decimal ip fd hfd rest hr
+  rw [digitsVal_of_parseDigits fd fp hfp, hval] at hst
+  rw [hw]
+  have e1 : natDigits ip ++ '.' :: fd ++ rest = natDigits ip ++ (('.' :: fd) ++ rest) := by simp
+  rw [e1]
+  apply lexLine_of_strtod
+  simp only [List.cons_append, List.length_cons]
+  rw [hst]
+  have : (natDigits ip).length + 1 + fd.length = (natDigits ip).length + (fd.length + 1) := by omega
+  rw [this]
 
 end LpCpp
